@@ -14,6 +14,7 @@ type Stats struct {
 	MaxDepth    int
 	MapRenders  int
 	MapIters    int // for-in over a map with >= 2 keys
+	MapOrders   int // every traversal (iteration, rendering to text) of a map with >= 2 keys: what Go's map order can influence
 	Closures    int
 	Captures    int // closure creations with >= 1 captured variable
 	Loops       int
@@ -193,6 +194,7 @@ func Run(prog *lang.Program, inputs map[string]Value, pol Policy, cfg Config) (o
 		it.MaxDepthLim = 150
 	}
 	it.Stats.FuncsCalled = map[int]bool{}
+	it.Pol.Orders = &it.Stats.MapOrders
 	for name, d := range info.Inputs {
 		it.globals[d.ID] = &Cell{V: inputs[name]}
 	}
@@ -621,10 +623,10 @@ func (it *Interp) eval(e *lang.Node, fr *frame) Value {
 	case "index":
 		b := it.eval(e.Kids[0], fr)
 		i := it.eval(e.Kids[1], fr)
-		return it.IndexGet(b, i)
+		return it.IndexExpr(b, i)
 	case "selector":
 		b := it.eval(e.Kids[0], fr)
-		return it.IndexGet(b, StrV(e.S))
+		return it.IndexExpr(b, StrV(e.S))
 	case "slice":
 		b := it.eval(e.Kids[0], fr)
 		var lo, hi Value = Undef, Undef
